@@ -220,6 +220,22 @@ def structural(tier, res):
     rets = [n for n in ast.walk(fi.node) if isinstance(n, ast.Return)]
     out.append(frames.Clause(fi.qualname + '#no_early_exit_from_view_loop', not bad and len(rets) == 1,
                              'single return after both loops, no break/continue' if not bad and len(rets) == 1 else 'early exits present'))
+    # the month of a payment is its year-month in every primitive that buckets by month (months, cv, by("month")): one key expression
+    EPQ = 'tally.expr_parser.ExpressionContext.'
+    for fn, want in (('get_months', {'%Y-%m'}), ('get_cv', {'%Y-%m'}), ('get_by', {'%Y-%m', '%Y', '%Y-%m-%d', '%Y-W%W'})):
+        fi = find_function(EPQ + fn)
+        res.functions[EPQ + fn] = fi.describe()
+        fmts, other = set(), []
+        for n in ast.walk(fi.node):
+            if isinstance(n, ast.Call) and isinstance(n.func, ast.Attribute) and n.func.attr == 'strftime':
+                ok = len(n.args) == 1 and isinstance(n.args[0], ast.Constant) and ast.unparse(n.func.value) == "t['date']"
+                (fmts.add(n.args[0].value) if ok else other.append(ast.unparse(n)))
+        # every dict / set key in the function is such a strftime value (no second notion of "month", e.g. date.month)
+        keys = [ast.unparse(n) for n in ast.walk(fi.node) if isinstance(n, ast.Attribute) and n.attr in ('month', 'year', 'day') and ast.unparse(n.value) == "t['date']"]
+        good = fmts == want and not other and not keys
+        out.append(frames.Clause(EPQ + fn + '#buckets_by_year_month_text', good,
+                                 'bucket keys are t[date].strftime(%s)' % sorted(fmts) if good else 'bucket keys: strftime formats %s, other %s, date parts %s' % (sorted(fmts), other, keys),
+                                 kind='auxiliary'))
     return out
 
 
